@@ -12,7 +12,7 @@
    last_attempt_seen s m o    : the last produce attempt that carried m was seen by the client
                                 as o (None = acknowledged). *)
 From Coq Require Import List NArith ZArith Bool Arith.
-From KV Require Import Lib.LTS Model.Writer Proofs.WriterStmts Proofs.WriterC01a Proofs.WriterC01b Proofs.WriterHolds Proofs.WriterHolds2 Proofs.WriterHolds1.
+From KV Require Import Lib.LTS Model.Writer Proofs.WriterStmts Proofs.WriterC01a Proofs.WriterC01b Proofs.WriterHolds Proofs.WriterHolds2 Proofs.WriterHolds1 Proofs.WriterInFlight.
 Import ListNotations.
 
 Theorem C01_nil_means_logged :
@@ -103,6 +103,23 @@ Theorem C01_compl_holds_on_runs :
     C01_compl_holds cfg (s_calls s) (s_journal s) (s_compl s) = true.
 Proof. exact C01_compl_holds_runs. Qed.
 Print Assumptions C01_compl_holds_on_runs.
+
+(* A batch is given up with an error classified as retriable only after MaxAttempts produce
+   requests — for EVERY classification [retriable cfg]; recorded histories are judged with the
+   SPECIFIED one, retriable_spec (Kafka protocol error table + transient transport errors: a cut
+   response = unexpected EOF, reset, broken pipe, refused, time-out), never with the code's own
+   isTemporary || isTransientNetworkError, which is compared with it class by class (op rtb). *)
+Theorem C01_no_early_giveup_holds_on_runs :
+  forall cfg ls s, run (step cfg) init ls = Some s ->
+    no_early_giveup_holds cfg (s_journal s) (s_compl s) = true.
+Proof. exact no_early_giveup_holds_runs. Qed.
+Print Assumptions C01_no_early_giveup_holds_on_runs.
+
+Example C01_retriable_spec_examples :
+  retriable_spec 1001%N = true /\ retriable_spec 1005%N = true /\ retriable_spec 1008%N = false /\
+  retriable_spec 1006%N = false /\ retriable_spec 65535%N = false /\ retriable_spec 7%N = true /\
+  retriable_spec 9%N = false /\ retriable_spec 3%N = true /\ retriable_spec 1%N = false.
+Proof. exact retriable_spec_examples. Qed.
 
 Theorem C01_no_foreign_holds_on_runs :
   forall cfg ls s, run (step cfg) init ls = Some s -> C01_no_foreign_holds cfg (s_log s) = true.
